@@ -37,6 +37,9 @@ type Route struct {
 	Params []Prm    `json:"params"`
 	Rets   []string `json:"rets"`
 	Verb   string   `json:"verb"`
+	// Sibling adds a second, well-formed method to the controller whose route overlaps this one (a route-conflict
+	// warning on the same controller): warnings must never mask errors
+	Sibling bool `json:"sibling,omitempty"`
 }
 
 func (r Route) clone() Route {
@@ -473,6 +476,18 @@ func render(id string, r Route) scen.Unit {
 		m.Ret, m.Err = sub(strings.Join(r.Rets[:len(r.Rets)-1], ", ")), sub(r.Rets[len(r.Rets)-1])
 	}
 	ctl := scen.Controller{Name: "C" + id, Pkg: id, Prefix: scen.S(sub(r.Prefix)), Tag: scen.S("T" + id), Methods: []scen.Method{m}}
+	if r.Sibling {
+		// same verb, same shape, every {param} replaced by a literal: overlaps the route above
+		sibRoute := nameRe.ReplaceAllString(sub(r.Route), "lit")
+		sib := scen.Method{Name: "Sib" + id, Verb: r.Verb, Route: scen.S(sibRoute), Body: "\tpanic(\"never called\")\n"}
+		for _, mm := range nameRe.FindAllStringSubmatch(sub(r.Prefix), -1) {
+			sib.Params = append(sib.Params, scen.Param{Name: "s" + mm[1], Type: "string", In: "Path", Alias: mm[1]})
+		}
+		switch r.Verb {
+		case "GET", "POST", "PUT", "DELETE", "PATCH":
+			ctl.Methods = append(ctl.Methods, sib)
+		}
+	}
 	decl := sub("type Body§ struct {\n\tA string `json:\"a\"`\n}\n\ntype E§ string\n\nconst (\n\tE§A E§ = \"a\"\n\tE§B E§ = \"b\"\n)\n\ntype TS§ string\n\ntype CErr§ struct {\n\terror\n\tCode int `json:\"code\"`\n}\n")
 	return scen.Unit{Controllers: []scen.Controller{ctl}, Decls: map[string]string{id: decl}, Imports: map[string][]string{id: {"context"}}}
 }
@@ -506,6 +521,9 @@ func buildCases(tier string) ([]scen.Case, map[string]caseInfo) {
 	}
 	for bi, b := range bases() {
 		add(bi, b.clone(), nil)
+		withSib := b.clone()
+		withSib.Sibling = true
+		add(bi, withSib, []string{"conflicting-sibling"})
 		ps := perturbations(b)
 		for i, p := range ps {
 			r1 := b.clone()
@@ -513,6 +531,9 @@ func buildCases(tier string) ([]scen.Case, map[string]caseInfo) {
 				continue
 			}
 			add(bi, r1, []string{p.Name})
+			rs := r1.clone()
+			rs.Sibling = true
+			add(bi, rs, []string{p.Name, "conflicting-sibling"})
 			if tier != "thorough" {
 				continue
 			}
@@ -603,7 +624,7 @@ func Main(tier, replay string) {
 	if replay == "" {
 		var cliCases []scen.Case
 		for _, c := range cases {
-			if c.Features["depth"] != "2" {
+			if c.Features["depth"] != "2" || strings.HasSuffix(c.Features["perturbations"], "conflicting-sibling") {
 				cliCases = append(cliCases, c)
 			}
 		}
